@@ -27,6 +27,10 @@ var ErrDialFailed = errors.New("websocket dial failed")
 // underlying cause (e.g. protocol.ErrAckTimeout) is available via errors.Unwrap.
 var ErrInitFailed = errors.New("protocol init failed")
 
+// maxSubscribeAttempts bounds how often Subscribe looks for another connection
+// when the one it was handed turns out to be closed already.
+const maxSubscribeAttempts = 3
+
 type ErrFailedUpgrade struct {
 	URL        string
 	StatusCode int
@@ -137,13 +141,24 @@ func NewWSTransport(ctx context.Context, opts WSTransportOptions) *WSTransport {
 // existing connection when one is available for the same endpoint, subprotocol,
 // headers, and init payload, dialing a new one otherwise.
 func (t *WSTransport) Subscribe(ctx context.Context, req *common.Request, opts common.Options, handler common.Handler) (func(), error) {
-	conn, err := t.getOrDial(ctx, opts)
-	if err != nil {
-		return nil, err
-	}
+	for attempt := 0; ; attempt++ {
+		conn, err := t.getOrDial(ctx, opts)
+		if err != nil {
+			return nil, err
+		}
 
-	id := xid.New().String()
-	return conn.subscribe(ctx, id, req, handler)
+		id := xid.New().String()
+		cancel, err := conn.subscribe(ctx, id, req, handler)
+
+		// The pooled connection was shut down between the lookup and the
+		// registration (its last subscriber left, or the upstream dropped it).
+		// That is not a failure of this subscription: get another connection.
+		if errors.Is(err, common.ErrConnectionClosed) && ctx.Err() == nil && attempt < maxSubscribeAttempts-1 {
+			continue
+		}
+
+		return cancel, err
+	}
 }
 
 // pingLoop sends periodic pings to all active connections and shuts down
